@@ -46,6 +46,7 @@ func main() {
 	Header(repo)
 	files := ParseDir(repo + "/x/evm/precompile")
 	consts := stringConsts(files)
+	collectPackageMaps(files)
 	methodsOf := methodDecls(files) // "recv.name" -> decl ; plain funcs under ".name"
 
 	fmt.Println("Require Import Nib.C08.Model.")
@@ -63,7 +64,7 @@ func main() {
 		}
 		ri := analyseRun(run, consts)
 		for abiName, h := range ri.handlers {
-			handlerOf[pc.typeName+"."+abiName] = methodsOf[pc.typeName+"."+h.fn]
+			handlerOf[pc.typeName+"."+abiName] = lookupHandler(methodsOf, pc.typeName, h)
 		}
 		names := make([]string, 0, len(abi.Methods))
 		for n := range abi.Methods {
@@ -83,7 +84,7 @@ func main() {
 			hname, inSwitch := ri.handlers[m.RawName]
 			guard, first := "GNone", true
 			if inSwitch {
-				guard, first = analyseHandler(methodsOf[pc.typeName+"."+hname.fn], hname, ri.readonlyParam)
+				guard, first = analyseHandler(lookupHandler(methodsOf, pc.typeName, hname), hname, ri.readonlyParam)
 			}
 			sep := ";"
 			if i == len(names)-1 {
@@ -115,28 +116,17 @@ func main() {
 		}
 	}
 	lenGuard := requiredGasLenGuard(plain[".requiredGas"], intC)
-	denomGuard, amountGuard := bankMsgSendGuards(handlerOf["precompileFunToken.bankMsgSend"])
-	localMeter := false
-	if fd := plain[".OnRunStart"]; fd != nil && fd.Body != nil {
-		// the limit must be the parameter the Run methods fill with contract.Gas (pf_start_first), untouched
-		isParam := false
-		for _, f := range fd.Type.Params.List {
-			for _, n := range f.Names {
-				if n.Name == "gasLimit" {
-					isParam = true
-				}
-			}
-		}
-		b := Nospace(fd.Body)
-		localMeter = isParam && strings.Contains(b, "cacheCtx.WithGasMeter(sdk.NewGasMeter(gasLimit))") &&
-			!strings.Contains(b, "gasLimit=") && !strings.Contains(b, "gasLimit:=") && !strings.Contains(b, "gasLimit+=")
+	evOf := func(abiMethod string) []event {
+		return linearEvents(handlerOf["precompileFunToken."+abiMethod], methodsOf, 0, map[*ast.FuncDecl]bool{})
 	}
+	denomGuard, amountGuard := bankMsgSendGuards(evOf("bankMsgSend"))
+	localMeter := localMeterFrom(plain[".OnRunStart"], 3, methodsOf, 0)
 	oogOnly := oogOnlySemantic(plain[".HandleOutOfGasPanic"])
 	g := gethFacts(repo)
 
-	evmDenomGuard := sendToEvmDenomGuard(handlerOf["precompileFunToken.sendToEvm"])
-	erc20NulGuard := getErc20NulGuard(handlerOf["precompileFunToken.getErc20Address"], methodsOf)
-	supplyGuard := sendToBankSupplyGuard(handlerOf["precompileFunToken.sendToBank"])
+	evmDenomGuard := lookupGuarded(evOf("sendToEvm"), "denom-guard")
+	erc20NulGuard := lookupGuarded(evOf("getErc20Address"), "nul-guard")
+	supplyGuard := guardedBy(evOf("sendToBank"), "mint", "supply-guard", false)
 	fmt.Printf("Definition current_guards : panic_guards := {|\n  g_len := %s;\n  g_denom := %s;\n  g_amount := %s;\n  g_evm_denom := %s;\n  g_erc20_nul := %s;\n  g_supply := %s |}.\n",
 		CoqBool(lenGuard), CoqBool(denomGuard), CoqBool(amountGuard), CoqBool(evmDenomGuard), CoqBool(erc20NulGuard), CoqBool(supplyGuard))
 	fmt.Printf("Definition current_facts : facts := {|\n  f_funtoken := funtoken_facts;\n  f_wasm := wasm_facts;\n  f_oracle := oracle_facts;\n  f_guards := current_guards;\n")
@@ -158,6 +148,13 @@ func main() {
 		}
 		return strings.Join(xs, "; ")
 	}())
+}
+
+func lookupHandler(methodsOf map[string]*ast.FuncDecl, typeName string, h handlerRef) *ast.FuncDecl {
+	if h.plain {
+		return methodsOf["."+h.fn]
+	}
+	return methodsOf[typeName+"."+h.fn]
 }
 
 func joinCoqStrings(xs []string) string {
@@ -340,6 +337,7 @@ func loadABI(path string) gethabi.ABI {
 
 type handlerRef struct {
 	fn            string
+	plain         bool // a plain function, not a method of the precompile type
 	readonlyArgAt int // index of the Run's read-only parameter among the call arguments (-1: not passed)
 }
 
@@ -358,20 +356,61 @@ func isErrReturnIf(s ast.Stmt) bool {
 	return ok
 }
 
-func analyseRun(run *ast.FuncDecl, consts map[string]string) runInfo {
-	ri := runInfo{handlers: map[string]handlerRef{}}
-	params := run.Type.Params.List
-	var pnames []string
-	for _, p := range params {
-		for _, n := range p.Names {
-			pnames = append(pnames, n.Name)
+// packageMaps: package-level  var X = map[K]V{ key: value, … }  composite literals, by name.
+var packageMaps = map[string]*ast.CompositeLit{}
+
+func collectPackageMaps(files []File) {
+	for _, fl := range files {
+		for _, d := range fl.F.Decls {
+			gd, ok := d.(*ast.GenDecl)
+			if !ok || gd.Tok != token.VAR {
+				continue
+			}
+			for _, sp := range gd.Specs {
+				vs := sp.(*ast.ValueSpec)
+				for i, n := range vs.Names {
+					if i < len(vs.Values) {
+						if cl, ok := vs.Values[i].(*ast.CompositeLit); ok {
+							if _, isMap := cl.Type.(*ast.MapType); isMap || cl.Type == nil {
+								packageMaps[n.Name] = cl
+							}
+						}
+					}
+				}
+			}
 		}
 	}
+}
+
+func flatParams(ft *ast.FuncType) []string {
+	var out []string
+	for _, p := range ft.Params.List {
+		if len(p.Names) == 0 {
+			out = append(out, "_")
+		}
+		for _, n := range p.Names {
+			out = append(out, n.Name)
+		}
+	}
+	return out
+}
+
+// analyseRun understands a Run method that dispatches either with
+//   switch PrecompileMethod(<method>.Name) { case C: bz, err = p.h(…) … }
+// or through a package-level table of handlers
+//   h, ok := table[PrecompileMethod(<method>.Name)]; if !ok { …; return }; …; bz, err = h(p, …)
+func analyseRun(run *ast.FuncDecl, consts map[string]string) runInfo {
+	ri := runInfo{handlers: map[string]handlerRef{}}
+	pnames := flatParams(run.Type)
 	if len(pnames) == 3 {
 		ri.readonlyParam = pnames[2]
 	}
+	recv := "p"
+	if run.Recv != nil && len(run.Recv.List) == 1 && len(run.Recv.List[0].Names) == 1 {
+		recv = run.Recv.List[0].Names[0].Name
+	}
 	stmts := run.Body.List
-	// first non-defer statement
+	// first non-defer statement: the OnRunStart call, its error returned
 	i := 0
 	for i < len(stmts) {
 		if _, ok := stmts[i].(*ast.DeferStmt); ok {
@@ -380,18 +419,43 @@ func analyseRun(run *ast.FuncDecl, consts map[string]string) runInfo {
 		}
 		break
 	}
+	startVar := ""
 	if i+1 < len(stmts) {
-		if as, ok := stmts[i].(*ast.AssignStmt); ok && len(as.Rhs) == 1 {
+		if as, ok := stmts[i].(*ast.AssignStmt); ok && len(as.Rhs) == 1 && len(as.Lhs) >= 1 {
 			rhs := Nospace(as.Rhs[0])
-			if len(pnames) == 3 && rhs == "OnRunStart("+pnames[0]+","+pnames[1]+".Input,p.ABI(),"+pnames[1]+".Gas)" && isErrReturnIf(stmts[i+1]) {
+			if len(pnames) == 3 && rhs == "OnRunStart("+pnames[0]+","+pnames[1]+".Input,"+recv+".ABI(),"+pnames[1]+".Gas)" && isErrReturnIf(stmts[i+1]) {
 				ri.startFirst = true
+				startVar = Src(as.Lhs[0])
 			}
 		}
 	}
-	swIdx := -1
+	// aliases of the start result's cache context
+	ctxAliases := map[string]bool{}
+	if startVar != "" {
+		ctxAliases[startVar+".CacheCtx"] = true
+		for _, s := range stmts {
+			if as, ok := s.(*ast.AssignStmt); ok && len(as.Lhs) == len(as.Rhs) {
+				for k := range as.Rhs {
+					if Nospace(as.Rhs[k]) == startVar+".CacheCtx" {
+						ctxAliases[Src(as.Lhs[k])] = true
+					}
+				}
+			}
+		}
+	}
+	readonlyAt := func(call *ast.CallExpr, shift int) int {
+		for k, a := range call.Args {
+			if id, ok := a.(*ast.Ident); ok && id.Name == ri.readonlyParam {
+				return k - shift
+			}
+		}
+		return -1
+	}
+	dispatchIdx := -1
 	for j, s := range stmts {
+		// (a) switch
 		if sw, ok := s.(*ast.SwitchStmt); ok && sw.Tag != nil && strings.HasPrefix(Nospace(sw.Tag), "PrecompileMethod(") {
-			swIdx = j
+			dispatchIdx = j
 			for _, c := range sw.Body.List {
 				cc := c.(*ast.CaseClause)
 				for _, e := range cc.List {
@@ -411,35 +475,96 @@ func analyseRun(run *ast.FuncDecl, consts map[string]string) runInfo {
 						continue
 					}
 					sel, ok := call.Fun.(*ast.SelectorExpr)
-					if !ok || Src(sel.X) != "p" {
+					if !ok || Src(sel.X) != recv {
 						continue
 					}
-					h := handlerRef{fn: sel.Sel.Name, readonlyArgAt: -1}
-					for k, a := range call.Args {
-						if id, ok := a.(*ast.Ident); ok && id.Name == ri.readonlyParam {
-							h.readonlyArgAt = k
-						}
-					}
-					ri.handlers[name] = h
+					ri.handlers[name] = handlerRef{fn: sel.Sel.Name, readonlyArgAt: readonlyAt(call, 0)}
 				}
 			}
 			break
 		}
+		// (b) table lookup
+		as, ok := s.(*ast.AssignStmt)
+		if !ok || len(as.Rhs) != 1 || len(as.Lhs) != 2 {
+			continue
+		}
+		ix, ok := as.Rhs[0].(*ast.IndexExpr)
+		if !ok || !strings.HasPrefix(Nospace(ix.Index), "PrecompileMethod(") {
+			continue
+		}
+		tbl, ok := ix.X.(*ast.Ident)
+		if !ok || packageMaps[tbl.Name] == nil {
+			continue
+		}
+		hVar, okVar := Src(as.Lhs[0]), Src(as.Lhs[1])
+		// unknown methods must return right away
+		if j+1 >= len(stmts) {
+			continue
+		}
+		if is, ok := stmts[j+1].(*ast.IfStmt); !ok || Nospace(is.Cond) != "!"+okVar || !returnsInside(is.Body) {
+			continue
+		}
+		// the call of the looked-up handler
+		for j2 := j + 2; j2 < len(stmts); j2++ {
+			as2, ok := stmts[j2].(*ast.AssignStmt)
+			if !ok || len(as2.Rhs) != 1 {
+				continue
+			}
+			call, ok := as2.Rhs[0].(*ast.CallExpr)
+			if !ok || Src(call.Fun) != hVar {
+				continue
+			}
+			dispatchIdx = j2
+			for _, e := range packageMaps[tbl.Name].Elts {
+				kv, ok := e.(*ast.KeyValueExpr)
+				if !ok {
+					continue
+				}
+				name := ""
+				if id, ok := kv.Key.(*ast.Ident); ok {
+					name = consts[id.Name]
+				}
+				if name == "" {
+					continue
+				}
+				switch v := kv.Value.(type) {
+				case *ast.SelectorExpr: // method expression T.handler: first call argument is the receiver
+					ri.handlers[name] = handlerRef{fn: v.Sel.Name, readonlyArgAt: readonlyAt(call, 1)}
+				case *ast.Ident: // plain function
+					ri.handlers[name] = handlerRef{fn: v.Name, plain: true, readonlyArgAt: readonlyAt(call, 0)}
+				}
+			}
+			break
+		}
+		if dispatchIdx >= 0 {
+			break
+		}
 	}
-	if swIdx < 0 {
+	if dispatchIdx < 0 {
 		return ri
 	}
-	for _, s := range stmts[:swIdx] {
+	for _, s := range stmts[:dispatchIdx] {
 		if ds, ok := s.(*ast.DeferStmt); ok && Nospace(ds) == "deferHandleOutOfGasPanic(&err)()" {
 			ri.oogDeferred = true
 		}
 	}
-	for _, s := range stmts[swIdx+1:] {
+	for _, s := range stmts[dispatchIdx+1:] {
 		if isErrReturnIf(s) {
 			break
 		}
-		if es, ok := s.(*ast.ExprStmt); ok && Nospace(es.X) == "contract.UseGas(startResult.CacheCtx.GasMeter().GasConsumed())" {
-			ri.useGas = true
+		es, ok := s.(*ast.ExprStmt)
+		if !ok {
+			continue
+		}
+		call, ok := es.X.(*ast.CallExpr)
+		if !ok || len(pnames) != 3 || Nospace(call.Fun) != pnames[1]+".UseGas" || len(call.Args) != 1 {
+			continue
+		}
+		arg := Nospace(call.Args[0])
+		for a := range ctxAliases {
+			if arg == a+".GasMeter().GasConsumed()" {
+				ri.useGas = true
+			}
 		}
 	}
 	return ri
@@ -862,88 +987,100 @@ func oogOnlySemantic(fd *ast.FuncDecl) bool {
 	return true
 }
 
-func bankMsgSendGuards(fd *ast.FuncDecl) (denom, amount bool) {
-	if fd == nil || fd.Body == nil {
-		return false, false
-	}
-	newCoin := token.NoPos
-	ast.Inspect(fd.Body, func(n ast.Node) bool {
-		if c, ok := n.(*ast.CallExpr); ok && Nospace(c.Fun) == "sdk.NewCoin" && newCoin == token.NoPos {
-			newCoin = c.Pos()
-		}
-		return true
-	})
-	if newCoin == token.NoPos {
-		return true, true // no sdk.NewCoin at all: nothing to guard
-	}
-	for _, s := range fd.Body.List {
-		is, ok := s.(*ast.IfStmt)
-		if !ok || is.Pos() > newCoin || !returnsInside(is.Body) {
-			continue
-		}
-		if is.Init != nil && Nospace(is.Init) == "err:=sdk.ValidateDenom(denom)" && Nospace(is.Cond) == "err!=nil" {
-			denom = true
-		}
-		c := Nospace(is.Cond)
-		if c == "amount==nil||amount.Sign()<0" || c == "amount.Sign()<0" || c == "amount==nil||amount.Sign()!=1" || c == "amount==nil||amount.Sign()<=0" {
-			amount = true
-		}
-	}
-	return
+// ---------------------------------------------------------------- linearised events with inlining
+
+// An event is something that matters for a panic guard, in execution order of the straight-line
+// reading of a handler: same-package callees (p.helper(…), helper(…)) are read at their call site,
+// transitively (depth 4), so that moving code into helpers or other files does not change the facts.
+type event struct {
+	kind string // mint | supply-guard | newcoin | denom-guard | amount-guard | lookup | nul-guard
+	arg  string // validated / constructed variable where it matters
 }
 
-// sendToEvm: if err := sdk.ValidateDenom(bankDenom); err != nil { return … } before the index lookup
-func sendToEvmDenomGuard(fd *ast.FuncDecl) bool {
-	if fd == nil || fd.Body == nil {
-		return false
-	}
-	lookup := token.NoPos
-	ast.Inspect(fd.Body, func(n ast.Node) bool {
-		if c, ok := n.(*ast.CallExpr); ok && strings.HasSuffix(Nospace(c.Fun), ".ExactMatch") && lookup == token.NoPos {
-			lookup = c.Pos()
-		}
-		return true
-	})
-	if lookup == token.NoPos {
-		return true
-	}
-	for _, s := range fd.Body.List {
-		is, ok := s.(*ast.IfStmt)
-		if ok && is.Pos() < lookup && is.Init != nil && Nospace(is.Init) == "err:=sdk.ValidateDenom(bankDenom)" &&
-			Nospace(is.Cond) == "err!=nil" && returnsInside(is.Body) {
-			return true
-		}
-	}
-	return false
-}
+var (
+	supplyCond = regexp.MustCompile(`^[A-Za-z0-9_.()]+\.BitLen\(\)>math\.MaxBitLen$`)
+	amountCond = regexp.MustCompile(`^(\w+==nil\|\|)?\w+\.Sign\(\)(<0|!=1|<=0)$`)
+	nulCond    = regexp.MustCompile(`^strings\.(ContainsRune\(\w+,0\)|Contains\(\w+,"\\x00"\)|IndexByte\(\w+,0\)>=0)$`)
+	denomInit  = regexp.MustCompile(`^\w+:?=sdk\.ValidateDenom\((\w+)\)$`)
+)
 
-// sendToBank: before every bank MintCoins call an if whose condition compares a BitLen() with
-// math.MaxBitLen and whose body returns (the sum supply + amount is checked against 256 bits)
-var supplyCond = regexp.MustCompile(`^[A-Za-z0-9_.()]+\.BitLen\(\)>math\.MaxBitLen$`)
-
-func sendToBankSupplyGuard(fd *ast.FuncDecl) bool {
-	if fd == nil || fd.Body == nil {
-		return false
+func linearEvents(fd *ast.FuncDecl, methodsOf map[string]*ast.FuncDecl, depth int, stack map[*ast.FuncDecl]bool) []event {
+	var evs []event
+	if fd == nil || fd.Body == nil || depth > 4 || stack[fd] {
+		return evs
 	}
-	var mints, guards []token.Pos
+	stack[fd] = true
+	defer delete(stack, fd)
+	recvT := recvName(fd)
+	recvV := ""
+	if fd.Recv != nil && len(fd.Recv.List) == 1 && len(fd.Recv.List[0].Names) == 1 {
+		recvV = fd.Recv.List[0].Names[0].Name
+	}
 	ast.Inspect(fd.Body, func(n ast.Node) bool {
 		switch x := n.(type) {
-		case *ast.CallExpr:
-			if strings.HasSuffix(Nospace(x.Fun), ".MintCoins") {
-				mints = append(mints, x.Pos())
-			}
+		case *ast.FuncLit:
+			return false
 		case *ast.IfStmt:
 			c := Nospace(x.Cond)
-			if supplyCond.MatchString(c) && returnsInside(x.Body) {
-				guards = append(guards, x.Pos())
+			ret := returnsInside(x.Body)
+			switch {
+			case ret && supplyCond.MatchString(c):
+				evs = append(evs, event{"supply-guard", ""})
+			case ret && amountCond.MatchString(c):
+				evs = append(evs, event{"amount-guard", ""})
+			case ret && nulCond.MatchString(c):
+				evs = append(evs, event{"nul-guard", ""})
+			case ret && x.Init != nil && (c == "err!=nil" || c == "e!=nil"):
+				if m := denomInit.FindStringSubmatch(Nospace(x.Init)); m != nil {
+					evs = append(evs, event{"denom-guard", m[1]})
+				}
+			}
+		case *ast.CallExpr:
+			f := Nospace(x.Fun)
+			switch {
+			case strings.HasSuffix(f, ".MintCoins"):
+				evs = append(evs, event{"mint", ""})
+			case f == "sdk.NewCoin":
+				a := ""
+				if len(x.Args) > 0 {
+					a = Nospace(x.Args[0])
+				}
+				evs = append(evs, event{"newcoin", a})
+			case strings.HasSuffix(f, ".ExactMatch"):
+				evs = append(evs, event{"lookup", ""})
+			}
+			// same-package callee read in place
+			var callee *ast.FuncDecl
+			switch fn := x.Fun.(type) {
+			case *ast.Ident:
+				callee = methodsOf["."+fn.Name]
+			case *ast.SelectorExpr:
+				if id, ok := fn.X.(*ast.Ident); ok && recvV != "" && id.Name == recvV {
+					callee = methodsOf[recvT+"."+fn.Sel.Name]
+				}
+			}
+			if callee != nil {
+				// arguments are evaluated first
+				for _, a := range x.Args {
+					ast.Inspect(a, func(m ast.Node) bool { return true })
+				}
+				evs = append(evs, linearEvents(callee, methodsOf, depth+1, stack)...)
 			}
 		}
 		return true
 	})
-	for _, m := range mints {
+	return evs
+}
+
+// every event of kind `what` is preceded by one of kind `guard` (optionally on the same variable)
+func guardedBy(evs []event, what, guard string, sameArg bool) bool {
+	for i, e := range evs {
+		if e.kind != what {
+			continue
+		}
 		ok := false
-		for _, g := range guards {
-			if g < m {
+		for _, g := range evs[:i] {
+			if g.kind == guard && (!sameArg || g.arg == e.arg) {
 				ok = true
 			}
 		}
@@ -954,59 +1091,89 @@ func sendToBankSupplyGuard(fd *ast.FuncDecl) bool {
 	return true
 }
 
-// getErc20Address: NUL characters are rejected before the index lookup, either in the handler
-// itself or in a p.<parser>(args) helper it calls before the lookup:
-//   if strings.ContainsRune(bankDenom, 0) { err = …; return }   ahead of the ValidateDenom / tokenfactory fallback
-func getErc20NulGuard(h *ast.FuncDecl, methodsOf map[string]*ast.FuncDecl) bool {
-	if h == nil || h.Body == nil {
-		return false
+func firstIdx(evs []event, kind string) int {
+	for i, e := range evs {
+		if e.kind == kind {
+			return i
+		}
 	}
-	lookup := token.NoPos
-	ast.Inspect(h.Body, func(n ast.Node) bool {
-		if c, ok := n.(*ast.CallExpr); ok && strings.HasSuffix(Nospace(c.Fun), ".ExactMatch") && lookup == token.NoPos {
-			lookup = c.Pos()
-		}
-		return true
-	})
-	cands := []*ast.FuncDecl{}
-	recv := recvName(h)
-	ast.Inspect(h.Body, func(n ast.Node) bool {
-		if c, ok := n.(*ast.CallExpr); ok && (lookup == token.NoPos || c.Pos() < lookup) {
-			if sel, ok := c.Fun.(*ast.SelectorExpr); ok && Src(sel.X) == "p" {
-				if fd := methodsOf[recv+"."+sel.Sel.Name]; fd != nil && fd.Body != nil {
-					cands = append(cands, fd)
-				}
-			}
-		}
-		return true
-	})
-	inFunc := func(fd *ast.FuncDecl, before token.Pos) bool {
-		for _, s := range fd.Body.List {
-			if before != token.NoPos && s.Pos() > before {
-				break
-			}
-			is, ok := s.(*ast.IfStmt)
-			if !ok {
-				continue
-			}
-			if is.Init == nil && Nospace(is.Cond) == "strings.ContainsRune(bankDenom,0)" && returnsInside(is.Body) {
-				return strings.Contains(Nospace(is.Body), "err=") || strings.Contains(Nospace(is.Body), "returnnil,")
-			}
-			if strings.Contains(Nospace(is), "ValidateDenom") {
-				return false // the fallback comes first
-			}
-		}
-		return false
+	return -1
+}
+
+// bankMsgSend: the first sdk.NewCoin(x, …) comes after a returning sdk.ValidateDenom(x) check and
+// after a returning sign check of the amount
+func bankMsgSendGuards(evs []event) (denom, amount bool) {
+	i := firstIdx(evs, "newcoin")
+	if i < 0 {
+		return true, true
 	}
-	if inFunc(h, lookup) {
+	for _, g := range evs[:i] {
+		if g.kind == "denom-guard" && g.arg == evs[i].arg {
+			denom = true
+		}
+		if g.kind == "amount-guard" {
+			amount = true
+		}
+	}
+	return
+}
+
+// sendToEvm: a returning sdk.ValidateDenom check precedes the first FunTokens index lookup
+func lookupGuarded(evs []event, guard string) bool {
+	i := firstIdx(evs, "lookup")
+	if i < 0 {
 		return true
 	}
-	for _, fd := range cands {
-		if inFunc(fd, token.NoPos) {
+	for _, g := range evs[:i] {
+		if g.kind == guard {
 			return true
 		}
 	}
 	return false
+}
+
+// localMeterFrom: the parameter #idx of fd reaches  <ctx>.WithGasMeter(sdk.NewGasMeter(<param>))  untouched,
+// in fd itself or through same-package helpers it is handed to
+func localMeterFrom(fd *ast.FuncDecl, idx int, methodsOf map[string]*ast.FuncDecl, depth int) bool {
+	if fd == nil || fd.Body == nil || depth > 4 {
+		return false
+	}
+	ps := flatParams(fd.Type)
+	if idx < 0 || idx >= len(ps) {
+		return false
+	}
+	name := ps[idx]
+	b := Nospace(fd.Body)
+	for _, bad := range []string{name + "=", name + ":=", name + "+=", name + "-=", name + "++", name + "--"} {
+		// (== is a comparison, not an assignment)
+		if k := strings.Index(b, bad); k >= 0 && !strings.HasPrefix(b[k+len(name):], "==") {
+			// make sure the match starts at an identifier boundary
+			if k == 0 || !(b[k-1] == '_' || b[k-1] >= '0' && b[k-1] <= '9' || b[k-1] >= 'a' && b[k-1] <= 'z' || b[k-1] >= 'A' && b[k-1] <= 'Z' || b[k-1] == '.') {
+				return false
+			}
+		}
+	}
+	if strings.Contains(b, ".WithGasMeter(sdk.NewGasMeter("+name+"))") {
+		return true
+	}
+	found := false
+	ast.Inspect(fd.Body, func(n ast.Node) bool {
+		call, ok := n.(*ast.CallExpr)
+		if !ok || found {
+			return true
+		}
+		id, ok := call.Fun.(*ast.Ident)
+		if !ok || methodsOf["."+id.Name] == nil {
+			return true
+		}
+		for k, a := range call.Args {
+			if Src(a) == name && localMeterFrom(methodsOf["."+id.Name], k, methodsOf, depth+1) {
+				found = true
+			}
+		}
+		return true
+	})
+	return found
 }
 
 // ---------------------------------------------------------------- go-ethereum fork
